@@ -2266,11 +2266,11 @@ def ellipse_from_second_moments_ijv(
     m = np.array([[None, 0, None], [0, None, None], [None, None, None]], object)
     if np.all(image == 1):
         image = 1
-        m[0, 0] = intensity = np.bincount(labels)
+        m[0, 0] = intensity = np.bincount(labels, minlength=nlabels)
     else:
-        m[0, 0] = intensity = np.bincount(labels, image)
-    ic = np.bincount(labels, i * image) / intensity
-    jc = np.bincount(labels, j * image) / intensity
+        m[0, 0] = intensity = np.bincount(labels, image, minlength=nlabels)
+    ic = np.bincount(labels, i * image, minlength=nlabels) / intensity
+    jc = np.bincount(labels, j * image, minlength=nlabels) / intensity
     i = i - ic[labels]
     j = j - jc[labels]
     #
@@ -2279,9 +2279,9 @@ def ellipse_from_second_moments_ijv(
     #
     # m[1,0] = 0 via normalization
     # m[0,1] = 0 via normalization
-    m[1, 1] = np.bincount(labels, i * j * image)
-    m[2, 0] = np.bincount(labels, i * i * image)
-    m[0, 2] = np.bincount(labels, j * j * image)
+    m[1, 1] = np.bincount(labels, i * j * image, minlength=nlabels)
+    m[2, 0] = np.bincount(labels, i * i * image, minlength=nlabels)
+    m[0, 2] = np.bincount(labels, j * j * image, minlength=nlabels)
 
     a = m[2, 0] / m[0, 0]
     b = 2 * m[1, 1] / m[0, 0]
@@ -2689,7 +2689,7 @@ def calculate_convex_hull_areas(labels, indexes=None):
     #
     # Given a label number "index_of_label" indexes into the result
     #
-    index_of_label = np.zeros((hull[:, 0].max() + 1), int)
+    index_of_label = np.zeros((max(hull[:, 0].max(), indexes.max()) + 1), int)
     index_of_label[indexes] = np.array(list(range(indexes.shape[0])))
     #
     # hull_index is the index into hull of the first point on the hull
@@ -2712,7 +2712,7 @@ def calculate_convex_hull_areas(labels, indexes=None):
     #
     # Now do the non-degenerate cases (_nd)
     #
-    counts_per_label = np.zeros((hull[:, 0].max() + 1), counts.dtype)
+    counts_per_label = np.zeros((index_of_label.shape[0],), counts.dtype)
     counts_per_label[indexes] = counts
     hull_nd = hull[counts_per_label[hull[:, 0]] >= 3]
     counts_nd = counts[counts >= 3]
